@@ -30,13 +30,16 @@ from ..translate import util as tu
 PROPERTY = "C19"
 CASE_TIMEOUT = 300  # s of wall clock per case in pool workers (runner watchdog): a case that spins forever is a verdict, not exit 2
 THEOREM_MODULE = "NemoVerif.Theorems.C19"
-RULE = ("fn: 1-4 sequential calls of the decorated _get_embeddings with 0-7 texts from a 9-symbol alphabet (duplicates, '', unicode), "
+RULE = ("fn: 1-4 sequential calls of the decorated _get_embeddings with 0-7 texts from a 14-symbol alphabet (duplicates, '', unicode incl. composed/decomposed pair, case pair, whitespace pair, two pairs of long texts with a common 30/100-char prefix), "
         "cache in {off, in_memory, filesystem(tmp dir), harness-registered shared store} x key generator in {md5, hash, harness-registered hex}, "
         "store pre-populated with a random subset. sched: 1-40 concurrent requests (search() with a stub index) + 0-3 direct _get_embeddings "
         "calls, batch size 1-8, hold in {0.5,1,1.5,2,3,10} ticks (integer holds coincide with integer arrival ticks), arrival ticks clustered/spread, per-call model latency from {no await, 0, 0.3, 0.7, 2.2, 5}, "
         "virtual-time loop; thorough adds ALL non-decreasing arrival vectors over {0..3} of <=4 requests x batch size <=3 x text partitions x 6 (hold, latency) pairs x 2 caches. "
+        "multi: 2-3 BasicEmbeddingsIndex objects in ONE process created through the real provider registry (register_embedding_provider/_init_model), models from 4 stub models (2 share dimension 4, others 6 and 3; sometimes the same model twice), "
+        "cache per index in {off, in_memory, filesystem(dir k), shared store(slot k)} x key generator, same or different locations, batching on/off, 1-4 phases (sequential or concurrent, arrival offsets) of 1-6 ops "
+        "{_get_embeddings(list), search(text), add_items(list), recreate (drop the index object and build a new one from the same or ANOTHER configuration)} over a shared alphabet; a failing multi case is re-run in a fresh process. "
         "non-trivial: fn = cache enabled and a call mixes hits and misses or has duplicates; sched = some batch carried >=2 requests, or a request "
-        "had to wait for `submitted`, or two in-flight batches overlapped.")
+        "had to wait for `submitted`, or two in-flight batches overlapped; multi = a cache is on and the same text went through two different models.")
 TRUSTED_BASE = [
     "correspondence harness harness/props/C19.py (event-loop with virtual time, logging asyncio.Event subclass, logging overrides of _run_batch/_get_embeddings/_batch_get_embeddings that delegate to super()) + Lean driver Drive/C19.lean",
     "asyncio semantics: code between two suspension points is atomic; Event.wait() on a set event does not yield; Event.set() makes all waiters runnable (modelled, tied by replaying the recorded schedule)",
@@ -49,7 +52,7 @@ ASSUMPTIONS = [
 ]
 EXHAUSTIVE = {"quick": False, "thorough": True}
 
-ALPHABET = ["a", "b", "", "c", "hello world", "é∑", "a ", "B", "long " * 6]
+ALPHABET = ["a", "b", "", "c", "hello world", "é∑", "a ", "B", "long " * 6, "long " * 6 + "tail", "Hello World", "e\u0301∑", "x" * 100 + "1", "x" * 100 + "2"]
 LAT = [None, 0, 0.3, 0.7, 2.2, 5.0]
 HOLD = [0.5, 1.0, 1.5, 2.0, 3.0, 10.0]
 
@@ -548,7 +551,8 @@ def run_impl(case):
         if case["kind"] == "fn":
             return _run_fn(case, tmpdir)
         if case["kind"] == "multi":
-            return _run_multi(case, tmpdir)
+            obs = _run_multi(case, tmpdir)
+            return _verify_fresh(case, obs)
         return _run_sched(case, tmpdir)
     finally:
         shutil.rmtree(tmpdir, ignore_errors=True)
@@ -706,10 +710,16 @@ def _m_texts(case):
 
 
 def _m_ops(case):
+    """(op number, phase number, phase, op, spec): `ix` of an op is a SLOT; slot i initially holds an index built from
+    case["indexes"][i]; `recreate` drops the index object of a slot and puts a new one there, built from the same spec or
+    from spec `as` (another model / cache configuration: the second instance at the same place)"""
     k = 0
+    slot = list(range(case.get("nslots", len(case["indexes"]))))
     for pi, ph in enumerate(case["phases"]):
         for op in ph["ops"]:
-            yield k, pi, ph, op
+            if op["op"] == "recreate":
+                slot[op["ix"]] = op.get("as", slot[op["ix"]])
+            yield k, pi, ph, op, slot[op["ix"]]
             k += 1
 
 
@@ -717,6 +727,7 @@ def _run_multi(case, tmpdir):
     global _MSTEPS
     from nemoguardrails.embeddings.cache import EmbeddingsCache
     from nemoguardrails.embeddings.index import IndexItem
+    from nemoguardrails.rails.llm.config import EmbeddingsCacheConfig
     import nemoguardrails.embeddings.providers as prov
 
     specs = case["indexes"]
@@ -743,12 +754,13 @@ def _run_multi(case, tmpdir):
     loop = VLoop()
     _MSTEPS = [0]
     try:
-        idxs = [make(i) for i in range(len(specs))]
-        for ix in idxs:
+        idxs = [make(i) for i in range(case.get("nslots", len(specs)))]
+        cfgs = [EmbeddingsCacheConfig(**_m_cache_config(sp, tmpdir)) for sp in specs]
+        for cfg in cfgs:
             # every case starts from empty caches (public API), so that a replay does not depend on what earlier cases
             # of this worker process left in process-wide state
-            if ix.cache_config.enabled:
-                EmbeddingsCache.from_config(ix.cache_config).clear()
+            if cfg.enabled:
+                EmbeddingsCache.from_config(cfg).clear()
         results = {}
 
         async def run_op(k, op):
@@ -777,6 +789,8 @@ def _run_multi(case, tmpdir):
             except Exception as e:  # noqa
                 results[name] = {"status": "exc: " + type(e).__name__ + ": " + str(e)[:80]}
 
+        cur = list(range(len(idxs)))
+
         async def main():
             hung = 0
             k = 0
@@ -784,7 +798,9 @@ def _run_multi(case, tmpdir):
                 if ph["mode"] == "seq":
                     for op in ph["ops"]:
                         if op["op"] == "recreate":
-                            idxs[op["ix"]] = make(op["ix"])  # a second index object with the same configuration
+                            cur[op["ix"]] = op.get("as", cur[op["ix"]])
+                            idxs[op["ix"]] = None  # the old object is released first (its address may be reused)
+                            idxs[op["ix"]] = make(cur[op["ix"]])  # a second index object (same or another configuration)
                             results[f"op{k}"] = {"status": "ok", "vecs": []}
                         else:
                             t = loop.create_task(run_op(k, op), name=f"op{k}")
@@ -811,9 +827,10 @@ def _run_multi(case, tmpdir):
             return hung
 
         obs["hung"] = loop.run_until_complete(main())
-        obs["ops"] = [results.get(f"op{k}", {"status": "hung"}) for k, _, _, _ in _m_ops(case)]
+        obs["ops"] = [results.get(f"op{k}", {"status": "hung"}) for k, _, _, _, _ in _m_ops(case)]
         obs["model_calls"] = {m: st["calls"] for m, st in _MLATS.items()}
         obs["leftover"] = [{"queue": len(ix._req_queue), "results": len(ix._req_results)} for ix in idxs]
+        idxs = None
         # final content of every declared store location
         stores = {}
         for i, sp in enumerate(specs):
@@ -837,13 +854,13 @@ def _run_multi(case, tmpdir):
         shares = [[False] * n for _ in range(n)]
         try:
             for i in range(n):
-                if not idxs[i].cache_config.enabled:
+                if not cfgs[i].enabled:
                     continue
                 probe = "verif-probe-%d" % i
-                EmbeddingsCache.from_config(idxs[i].cache_config)._cache_store.set(probe, [0.5])
+                EmbeddingsCache.from_config(cfgs[i])._cache_store.set(probe, [0.5])
                 for j in range(n):
-                    if idxs[j].cache_config.enabled:
-                        shares[i][j] = EmbeddingsCache.from_config(idxs[j].cache_config)._cache_store.get(probe) is not None
+                    if cfgs[j].enabled:
+                        shares[i][j] = EmbeddingsCache.from_config(cfgs[j])._cache_store.get(probe) is not None
             obs["shares"] = shares
         except Exception as e:  # noqa
             obs["shares"] = "probe failed: " + type(e).__name__ + ": " + str(e)[:80]
@@ -854,6 +871,38 @@ def _run_multi(case, tmpdir):
             loop.close()
         except Exception:  # noqa
             pass
+
+
+_FRESH = [0]
+
+
+def _verify_fresh(case, obs):
+    """A multi-index case that fails in a pool worker is run again in a NEW Python process and that observation is
+    returned: process-wide state that a change of the code under test keeps (class-level tables, memo dicts, registries)
+    survives from case to case inside a worker, so a failure seen there may depend on earlier cases - a replay must fail
+    on its own.  (The polluting history is itself among the generated cases: several indexes, several phases.)
+    Bounded per worker; failures inside the region of the open finding are determined by the configuration alone."""
+    import multiprocessing
+    import subprocess
+    import sys
+    if multiprocessing.current_process().name == "MainProcess" or os.environ.get("C19_FRESH_CHILD") or _FRESH[0] >= 6:
+        return obs
+    try:
+        msg = _m_oracle(case, obs)
+    except Exception:  # noqa
+        return obs
+    if not msg or msg.startswith("[shared-store] "):
+        return obs
+    _FRESH[0] += 1
+    try:
+        p = subprocess.run([sys.executable, "-c", "import sys, json\nfrom harness.props import C19\nprint('\\n' + json.dumps(C19.run_impl(json.load(sys.stdin))))"],
+                           input=json.dumps(case).encode("utf-8"), stdout=subprocess.PIPE, stderr=subprocess.DEVNULL, timeout=120,
+                           env=dict(os.environ, C19_FRESH_CHILD="1"), cwd=os.path.dirname(os.path.dirname(os.path.dirname(os.path.abspath(__file__)))))
+        obs2 = json.loads(p.stdout.decode("utf-8").strip().split("\n")[-1])
+        obs2["in_worker_failure"] = msg
+        return obs2
+    except Exception:  # noqa
+        return obs
 
 
 def _m_declared_shares(case):
@@ -884,11 +933,11 @@ def _m_oracle(case, obs):
         if len(set(ks)) != len(ks):
             return None  # key collision among the texts in use
     first_known = None
-    for k, pi, ph, op in _m_ops(case):
+    for k, pi, ph, op, sx in _m_ops(case):
         o = obs["ops"][k]
-        i = op["ix"]
+        i = sx
         model = specs[i]["model"]
-        where = f"op {k} (phase {pi} {ph['mode']}, index {i} model {model} cache {specs[i]['cache']['store']}) {op['op']}"
+        where = f"op {k} (phase {pi} {ph['mode']}, slot {op['ix']} index {i} model {model} cache {specs[i]['cache']['store']}) {op['op']}"
         if o["status"] != "ok":
             return f"{where} did not complete: {o['status']}"
         if op["op"] == "recreate" or o.get("skipped"):
@@ -927,11 +976,11 @@ def _m_model_requests(case, obs):
     ixs = [{"cfg": {"enabled": sp["cache"]["store"] != "off", "persistent": _m_persistent(sp)}, "loc": _m_loc(sp, i),
             "keys": obs["keys"][i], "vecs": obs["vecs"][i]} for i, sp in enumerate(specs)]
     ops = []
-    for k, pi, ph, op in _m_ops(case):
+    for k, pi, ph, op, sx in _m_ops(case):
         if op["op"] == "recreate" or obs["ops"][k].get("skipped"):
-            ops.append([op["ix"], None])
+            ops.append([sx, None])
         else:
-            ops.append([op["ix"], op["texts"] if "texts" in op else [op["text"]]])
+            ops.append([sx, op["texts"] if "texts" in op else [op["text"]]])
     return [{"m": "C19.multi", "indexes": ixs, "ops": ops}]
 
 
@@ -961,9 +1010,9 @@ def _m_nontrivial(case, obs):
     if len(set(sp["model"] for sp in specs)) < 2:
         return False
     seen = {}
-    for k, pi, ph, op in _m_ops(case):
+    for k, pi, ph, op, sx in _m_ops(case):
         for t in (op.get("texts") or ([op["text"]] if "text" in op else [])):
-            seen.setdefault(t, set()).add(specs[op["ix"]]["model"])
+            seen.setdefault(t, set()).add(specs[sx]["model"])
     return any(len(v) >= 2 for v in seen.values()) and any(sp["cache"]["store"] != "off" for sp in specs)
 
 
@@ -978,7 +1027,7 @@ def _m_tags(case, obs):
     elif any(any(r[j] for j in range(len(r)) if j != i) for i, r in enumerate(_m_declared_shares(case))):
         t.append("store-shared-by-same-model")
     t.append("phases:" + ("seq" if _m_all_seq(case) else "conc" if all(ph["mode"] == "conc" for ph in case["phases"]) else "mixed"))
-    kinds = set(op["op"] for _, _, _, op in _m_ops(case))
+    kinds = set(op["op"] for _, _, _, op, _ in _m_ops(case))
     t.extend("mop:" + k for k in sorted(kinds))
     if any(sp.get("batching") for sp in specs):
         t.append("mbatching")
@@ -1015,12 +1064,13 @@ def g_multi(rng):
                       "max": rng.randint(1, 4), "hold": rng.choice(HOLD), "lats": [rng.choice(LAT) for _ in range(rng.randint(1, 3))]})
     phases = []
     allseq = rng.random() < 0.5
+    nslots = n - 1 if (n == 3 and rng.random() < 0.3) else n  # a spare configuration that only `recreate ... as` brings in
     for _ in range(rng.randint(1, 4)):
         mode = "seq" if allseq or rng.random() < 0.4 else "conc"
         ops = []
         added = set()
         for _ in range(rng.randint(1, 6)):
-            ix = rng.randrange(n)
+            ix = rng.randrange(nslots)
             r = rng.random()
             if r < 0.4:
                 ops.append({"ix": ix, "op": "get", "texts": g_texts(rng, rng.choice([1, 1, 2, 3, 4]), alpha)})
@@ -1033,13 +1083,19 @@ def g_multi(rng):
                 ops.append({"ix": ix, "op": "add", "texts": g_texts(rng, rng.randint(1, 4), alpha)})
             elif mode == "seq":
                 ops.append({"ix": ix, "op": "recreate"})
+                if rng.random() < 0.4:
+                    ops[-1]["as"] = rng.randrange(n)
             if mode == "conc" and ops and rng.random() < 0.3:
                 ops[-1]["at"] = rng.choice([0, 0.5, 1, 2])
         if ops:
             phases.append({"mode": mode, "ops": ops})
     if not phases:
         phases = [{"mode": "seq", "ops": [{"ix": 0, "op": "get", "texts": [alpha[0]]}, {"ix": 1, "op": "get", "texts": [alpha[0]]}]}]
-    return {"kind": "multi", "indexes": specs, "phases": phases}
+        nslots = n
+    case = {"kind": "multi", "indexes": specs, "phases": phases}
+    if nslots != n:
+        case["nslots"] = nslots
+    return case
 
 
 def _m_shrink(case):
@@ -1057,8 +1113,8 @@ def _m_shrink(case):
                     yield dict(case, phases=phs[:pi] + [dict(ph, ops=ph["ops"][:oi] + [dict(op, texts=op["texts"][:q] + op["texts"][q + 1:])] + ph["ops"][oi + 1:])] + phs[pi + 1:])
         if ph["mode"] == "conc":
             yield dict(case, phases=phs[:pi] + [dict(ph, mode="seq", ops=[{k: v for k, v in op.items() if k != "at"} for op in ph["ops"]])] + phs[pi + 1:])
-    used = set(op["ix"] for _, _, _, op in _m_ops(case))
-    if len(case["indexes"]) > 2 or (len(case["indexes"]) > 1 and len(used) < len(case["indexes"])):
+    used = set(op["ix"] for _, _, _, op, _ in _m_ops(case))
+    if "nslots" not in case and not any("as" in op for _, _, _, op, _ in _m_ops(case)) and len(case["indexes"]) > 1:
         for i in range(len(case["indexes"])):
             if i not in used:
                 remap = lambda x: x - 1 if x > i else x  # noqa
